@@ -22,7 +22,7 @@ var hostile = []string{
 	"\"unterminated", "'x", "/* never closed", "\x00", "\xff\xfe", "\xc3", "{{{{{{{{{{{{{{{{", "}}}}", "[[[[", "<<<<", "= = =", ";;;;",
 	"0x", "1e", "1e+", "0777777777777777777777777", "99999999999999999999999999999", ".", "..", "\\", "\"\\", "\"\\x\"", "\"\\U00110000\"", "\"\\777\"",
 	"option", "message", "extend", "group", "map<", "map<,>", "oneof", "rpc", "returns", "stream", "reserved", "extensions", "to max", "syntax", "edition", "import public weak",
-	"\r", "\v", "\f", "\u2028", "\ufeff", "\ufffd", "$", "#", "@", "`", "~", "?",
+	"\"\\\xff\"", "'\\\xfe", "\"\\\xc3", "\r", "\v", "\f", "\u2028", "\ufeff", "\ufffd", "$", "#", "@", "`", "~", "?",
 }
 
 // mutateText applies 1-4 generated mutations to a source text.
@@ -203,6 +203,36 @@ func TestC12_Mutants(t *testing.T) {
 			return srcCase{Name: "f.proto", Text: mutateText(t, c.Text)}
 		},
 		Check: c12Check})
+}
+
+// TestC12_EnumShort: every short string over the characters that steer the lexer's string, escape, comment and
+// number paths, at the very start of a file and after a valid statement.
+func TestC12_EnumShort(t *testing.T) {
+	syms := []string{"\"", "'", "\\", "\xff", "\xc3", "x", "0", "\n", "\x00", "u", "/", "*", "."}
+	maxLen := 3
+	if ev.Thorough() {
+		maxLen = 5
+	}
+	ev.RunEnum(t, ev.Spec[srcCase]{ID: "C12", Name: "EnumShort", NoReplay: true,
+		Rule:  fmt.Sprintf("ALL strings of <=%d symbols over {double quote, single quote, backslash, 0xFF, 0xC3, x, 0, newline, NUL, u, slash, star, dot}, as the whole input and appended to 'syntax = \"proto3\";'; same oracle as Mutants", maxLen),
+		Check: c12Check}, true, func(yield func(srcCase) bool) {
+		var rec func(cur string, n int) bool
+		rec = func(cur string, n int) bool {
+			if !yield(srcCase{Name: "f.proto", Text: cur}) || !yield(srcCase{Name: "f.proto", Text: "syntax = \"proto3\";" + cur}) {
+				return false
+			}
+			if n == maxLen {
+				return true
+			}
+			for _, s := range syms {
+				if !rec(cur+s, n+1) {
+					return false
+				}
+			}
+			return true
+		}
+		rec("", 0)
+	})
 }
 
 func FuzzC12(f *testing.F) {
